@@ -103,8 +103,10 @@ def rand_poly(rng, fmt, dims):
 
 def rand_map_tab(rng, fmt, channels, n=7, special=False, mapdims=None):
     dens = []
-    for _ in range(n * channels):
+    for k in range(n * channels):
         r = rng.random()
+        if special and k % channels == 0: zero_row = rng.random() < 0.12       # (a point outside the support of every channel: total density exactly zero)
+        if special and zero_row: dens.append(Fraction(0)); continue
         if special and r < 0.08: dens.append(Fraction(0))
         elif special and r < 0.12: dens.append('inf')
         elif special and r < 0.15: dens.append('nan')
@@ -784,6 +786,13 @@ def gen_C10(c, rng, tier):
                     s, cl3 = mpi_variant(rng, s, info); cl = cl + cl3          # every rank ends at the serial generator position
                 c.add(t, 'run', s, classes=cl, nontrivial=(kind == 'mc' or any('value_nan' == x or 'value_inf' == x for x in cl)), info=info)
     for t in TYPES: gen_sizes(c, rng, tier, t, ['dims', 'channels'])
+    for t in TYPES:
+        fmt = FMTS[t]
+        for _ in range(scale(tier, 2, 10)):
+            # multi-channel under MPI with a map whose target dimension differs from the number of random numbers per call
+            s, cl, info = rand_run(rng, fmt, 'mc', poly=False, force_mapdims=True, iters=2, calls=[7, 12], value_classes=['small_int', 'frac', 'zero'])
+            s, cl3 = mpi_variant(rng, s, info, worlds=(2, 3, 5))
+            c.add(t, 'run', s, classes=cl + cl3 + ['map_dimensions_differ_under_mpi'], nontrivial=True, info=info)
 
 @prop('C11', '1-d and 2-d binnings (negative, tiny, huge, non-unit ranges) with coordinates interior / on every edge / +-1 ulp / outside / +-inf / NaN / 2^70, '
       'several distributions per integrand, the same distribution filled twice, fill values from tables; three integrators and types; '
